@@ -1131,6 +1131,66 @@ SPECIAL_F = [0.0, -0.0, 1.0, -1.0, 0.5, 0.1, 0.001, 0.009, 1.001, -0.009, 32.767
              float('inf'), float('-inf'), float('nan'), 65535.0, 0.3333333333333333, 2.5, 1.5, -2.5]
 
 
+# every float argument of every command is driven through the special values, one argument at a time
+SPECIAL_SWEEP = [float('nan'), float('inf'), float('-inf'), 0.0, -0.0, 5e-324, -5e-324, 2.2250738585072014e-308, 1e-46, -1e-46,
+                 1.401298464324817e-45, 7.006492321624085e-46, 1.1754942106924411e-38, 1.1754943508222875e-38,
+                 FLT_MAX, -FLT_MAX, math.nextafter(FLT_MAX, math.inf), 3.4028235677973366e38, math.nextafter(3.4028235677973366e38, 0),
+                 -3.4028235677973366e38, 1e39, 1.7976931348623157e308,
+                 TWO_PI, -TWO_PI, math.nextafter(TWO_PI, 10), math.nextafter(TWO_PI, 0), math.nextafter(-TWO_PI, -10),
+                 math.nextafter(-TWO_PI, 0), 32.767, 32.7675, 32.768, -32.768, -32.7685, -32.769, 16777217.0]
+SPECIAL_SWEEP_TIE = [float('nan'), float('inf'), -0.0, 5e-324, math.nextafter(TWO_PI, 10), -32.7685]
+
+
+def base_args(cmd):
+    """ordinary, valid arguments of the documented types"""
+    out = []
+    for i, p in enumerate(CMDS[cmd][2]):
+        k = p[1]
+        if k in ('f', 'optf'):
+            out.append(0.25 * (i + 1))
+        elif k == 'mm':
+            out.append(0.125 * (i + 1))
+        elif k in ('f3', 'f4'):
+            out.append([0.5 + 0.25 * j for j in range(VEC_LEN[k])])
+        elif k == 'mm3':
+            out.append([0.5, -0.25, 1.0])
+        elif k == 'quat':
+            out.append([0.0, 0.0, 0.0, 1.0])
+        elif k == 'u16':
+            out.append(1000)
+        elif k in INT_RANGE:
+            out.append(1)
+        elif k == 'flag':
+            out.append(False)
+        elif k == 'ilist':
+            out.append([1, 3])
+        elif k == 'raw':
+            out.append([1, 2, 3])
+    if cmd == 'CLocExtPose':
+        out[1] = [0.0, 0.0, 0.0, 1.0]
+    return out
+
+
+def special_sweep_cases(values, versions=(9, 7)):
+    out = []
+    for cmd in ORDER:
+        for i, p in enumerate(CMDS[cmd][2]):
+            k = p[1]
+            slots = [None] if k in ('f', 'optf', 'mm') else (list(range(VEC_LEN[k])) if k in ('f3', 'f4', 'mm3') else [])
+            for j in slots:
+                for ver in versions:
+                    for xm in ((False, True) if cmd == 'CSetpoint' else (False,)):
+                        for v in values:
+                            args = base_args(cmd)
+                            if j is None:
+                                args[i] = v
+                            else:
+                                args[i] = list(args[i])
+                                args[i][j] = v
+                            out.append({'cmd': cmd, 'ver': ver, 'xm': xm, 'args': args})
+    return out
+
+
 def gen_float(rng, wild=True):
     r = rng.random()
     if r < 0.35:
@@ -1318,7 +1378,7 @@ def canon_nans(o, ver):
 
 def all_cases(ctx, n_random):
     rng = ctx.rng
-    cases = focus_cases(rng)
+    cases = focus_cases(rng) + special_sweep_cases(SPECIAL_SWEEP_TIE, versions=(9,))
     for i in range(n_random):
         cmd = ORDER[i % len(ORDER)]
         cases.append(gen_case(rng, cmd, typed=(rng.random() < 0.6)))
@@ -1368,7 +1428,7 @@ def check_signatures(ctx):
 
 def tie(ctx):
     dis = check_signatures(ctx)
-    cases = corpus_cases() + all_cases(ctx, ctx.scale(2400, 40000))
+    cases = corpus_cases() + all_cases(ctx, ctx.scale(2100, 40000))
     seen = set()
     uniq = []
     for c in cases:
@@ -1377,7 +1437,7 @@ def tie(ctx):
             seen.add(k)
             uniq.append(c)
     cases = uniq
-    n_focus = len(corpus_cases()) + len(focus_cases(ctx.rng.__class__(0)))
+    n_focus = len(corpus_cases()) + len(focus_cases(ctx.rng.__class__(0))) + len(special_sweep_cases(SPECIAL_SWEEP_TIE, versions=(9,)))
     for i, c in enumerate(cases):
         c['kw'], c['omit'] = (i % 7 == 3), (i % 5 == 1)
     # session histories: the same objects throughout, the version changes only through connect / answer / disconnect
@@ -1516,13 +1576,14 @@ def oracle(ctx, deep=False):
     rng = random.Random(ctx.seed * 7919 + 17)
     fails = []
     n = 0
-    cases = corpus_cases() + focus_cases(rng)
+    sweep = special_sweep_cases(SPECIAL_SWEEP)
+    cases = corpus_cases() + focus_cases(rng) + sweep
     per = ctx.scale(60, 600) * (4 if deep else 1)
     for cmd in ORDER:
         for _ in range(per if CMDS[cmd][2] else 2):
             cases.append(gen_case(rng, cmd, typed=True))
     flat = []
-    n_focus = len(corpus_cases()) + len(focus_cases(random.Random(0)))
+    n_focus = len(corpus_cases()) + len(focus_cases(random.Random(0))) + len(sweep)
     for i, c in enumerate(cases):
         for mode in ((False, False),) if i % 3 else ((False, False), (True, False), (False, True)):
             d = dict(c, kw=mode[0], omit=mode[1])
